@@ -10,7 +10,7 @@ CFG = {
              "quoting, white space, comments outside the root, character references, element order, key order, integer/real spelling, "
              "DOCTYPE on plists, default layer anywhere in layercontents.plist) plus at most one rare spelling per case, loaded by "
              "Font::load and dumped through public getters: values must equal the description, default layer first, the others in "
-             "file order, the six transformation coefficients with the specification's affine meaning. 450 + 450 cases quick, "
+             "file order, the six transformation coefficients with the specification's affine meaning. 750 + 750 cases quick, "
              "12 000 + 12 000 thorough. non-trivial = the description holds at least one glyph; distinct by input tokens"),
     "exhaustive": {"quick": False, "thorough": False},
     "exhaustive_note": "the vocabulary theorems are exhaustive over the regenerated tables (every FontInfo field, every attribute literal, every file-name static); the behavioural part is sampled",
